@@ -7,9 +7,11 @@ import (
 	"sort"
 	"strconv"
 	"strings"
+	"time"
 
 	"verifmc/core"
 	"verifmc/node"
+	"verifmc/vorder"
 
 	"github.com/LemoFoundationLtd/lemochain-core/chain/account"
 	"github.com/LemoFoundationLtd/lemochain-core/chain/types"
@@ -61,6 +63,8 @@ type lpath struct {
 	Kind   string `json:"kind"`
 	Script []lev  `json:"script"`
 	Miner  bool   `json:"miner"`
+	// MapOrder > 0: every instrumented map loop of this node runs under that controlled order (vorder)
+	MapOrder int `json:"map_order,omitempty"`
 }
 
 type lcase struct {
@@ -73,7 +77,11 @@ func (c lcase) String() string {
 	if c.Path.Miner {
 		m = "miner"
 	}
-	return fmt.Sprintf("window 7..12 = [%s]; %s node, %s: %s", strings.Join(c.Hist, " | "), m, c.Path.Kind, scriptString(c.Path.Script))
+	k := c.Path.Kind
+	if c.Path.MapOrder > 0 {
+		k += fmt.Sprintf("(%d)", c.Path.MapOrder)
+	}
+	return fmt.Sprintf("window 7..12 = [%s]; %s node, %s: %s", strings.Join(c.Hist, " | "), m, k, scriptString(c.Path.Script))
 }
 
 // ---------------------------------------------------------------------------------------------
@@ -200,49 +208,83 @@ func pathDirty(allStable bool) lpath {
 // lPaths lists the node lives explored for every history, simplest first.
 func lPaths(thorough bool) []lpath {
 	var out []lpath
-	both := func(p lpath) {
-		out = append(out, p)
-		m := p
-		m.Miner = true
-		out = append(out, m)
+	val := func(p lpath) { out = append(out, p) }
+	min := func(p lpath) { p.Miner = true; out = append(out, p) }
+	both := func(p lpath) { val(p); min(p) }
+	in := func(x int, l ...int) bool {
+		for _, y := range l {
+			if x == y {
+				return true
+			}
+		}
+		return false
 	}
+	// every position of the stable pointer for every block, validator and miner
 	for d := 0; d <= lLast-lFirst; d++ {
 		both(pathLag(d))
 	}
-	// batch routes to the stable positions that matter for the blocks of the special heights
+	// other routes to the same positions: nothing confirmed, then a batch
 	for h := lFirst + 1; h <= lLast; h++ {
 		for st := lFirst; st < h; st++ {
-			if !thorough && !(h == 11 && st >= 8) && !(h == 9 && st == 8) {
-				continue
+			switch {
+			case thorough && (h >= 11 || h == 9):
+				both(pathBatch(h, st))
+			case thorough:
+				val(pathBatch(h, st))
+			case (h == 11 && in(st, 8, 10)) || (h == 9 && st == 8):
+				val(pathBatch(h, st))
 			}
-			both(pathBatch(h, st))
 		}
 	}
+	// restarts
 	for rho := lPrefix; rho < lLast; rho++ {
-		both(pathRestart(rho, false))
-		if thorough || rho >= int(lT)-1 {
-			both(pathRestart(rho, true))
+		val(pathRestart(rho, false))
+		if thorough || in(rho, 7, 10) {
+			min(pathRestart(rho, false))
+			val(pathRestart(rho, true))
+		}
+		if thorough && in(rho, 7, 8, 10) {
+			min(pathRestart(rho, true))
 		}
 	}
 	for h := lFirst; h < lLast; h++ {
-		if thorough || h == 10 || h == 8 {
-			both(pathRestartLosing(h))
+		if thorough || h == 10 {
+			val(pathRestartLosing(h))
+		}
+		if thorough && in(h, 8, 10) {
+			min(pathRestartLosing(h))
 		}
 	}
+	// sibling forks
 	for k := lFirst; k <= lLast; k++ {
 		for _, before := range []bool{true, false} {
-			out = append(out, pathFork(k, 1, before))
+			if thorough || in(k, 8, 9, 11, 12) {
+				val(pathFork(k, 1, before))
+			}
 			if thorough {
-				out = append(out, pathFork(k, 2, before))
-				m := pathFork(k, 1, before)
-				m.Miner = true
-				out = append(out, m)
+				val(pathFork(k, 2, before))
+				if in(k, 8, 11) {
+					min(pathFork(k, 1, before))
+				}
 			}
 		}
 	}
 	both(pathDirty(false))
 	if thorough {
 		both(pathDirty(true))
+	}
+	// hash-map iteration order (candidate lists, refund loop, vote changes by balance, change-log grouping ...)
+	for pol := 1; pol <= vorder.Policies; pol++ {
+		if thorough || pol == 2 {
+			p := pathLag(0)
+			p.Kind, p.MapOrder = "map-order", pol
+			both(p)
+		}
+		if thorough && pol >= 2 && pol <= 3 {
+			p := pathBatch(11, 8)
+			p.Kind, p.MapOrder = "map-order", pol
+			both(p)
+		}
 	}
 	return out
 }
@@ -438,12 +480,25 @@ func sameTxs(a, b *types.Block) bool {
 // ---------------------------------------------------------------------------------------------
 // the path runner
 
-// lFail remembers, per history, what went wrong for (mode, height, stable height) on the plain
-// stable-pointer paths, so that a path that varies something else as well does not report the same
-// failure under its own name.
-type lFail map[string]string
+// stripScript removes the restarts, siblings and twins of a script (and what a restart made arrive a
+// second time): what is left varies the stable pointer only.
+func stripScript(s []lev) []lev {
+	var out []lev
+	seen := map[string]bool{}
+	for _, e := range s {
+		if e.Op != "B" && e.Op != "C" {
+			continue
+		}
+		if seen[e.String()] {
+			continue
+		}
+		seen[e.String()] = true
+		out = append(out, e)
+	}
+	return out
+}
 
-func failKey(miner bool, h int, s uint32) string { return fmt.Sprintf("%v/%d/%d", miner, h, s) }
+var lTimes = map[string]time.Duration{}
 
 func lRunPath(c *lchain, p lpath, r *core.Result, verbose bool) (trace []string) {
 	say := func(f string, a ...interface{}) {
@@ -456,28 +511,44 @@ func lRunPath(c *lchain, p lpath, r *core.Result, verbose bool) (trace []string)
 	if p.Miner {
 		mode = "miner"
 	}
+	t0 := time.Now()
+	if p.MapOrder > 0 {
+		vorder.SetPolicy(p.MapOrder)
+		defer vorder.SetPolicy(0)
+	}
+	// every node is long-running: it receives the prefix in this process (a copy of a data directory would be a restart)
 	n := lNewNode()
-	defer func() { n.Destroy() }()
+	lTimes["new"] += time.Since(t0)
+	t1 := time.Now()
 	for h := 1; h <= lPrefix; h++ {
 		if err := n.insert(c.blocks[h]); err != nil {
 			panic(fmt.Sprintf("harness: node rejects prefix block %d: %v", h, err))
 		}
 		n.confirm(c.blocks[h], c.sigs[h])
 	}
-	if n.stableHeight() != lPrefix {
+	lTimes["prefix"] += time.Since(t1)
+	defer func() { t := time.Now(); n.Destroy(); lTimes["destroy"] += time.Since(t) }()
+	if n.stableHeight() != lPrefix || n.BC.CurrentBlock().Hash() != c.blocks[lPrefix].Hash() {
 		panic("harness: prefix not stable")
 	}
+	t2 := time.Now()
+	defer func() { lTimes["events"] += time.Since(t2) }()
 	restarted := false
 	report := func(h int, s uint32, what, diag, text string) {
-		key := failKey(p.Miner, h, s)
 		if p.Kind != "stable-pointer" {
-			if d, ok := c.fails[key]; ok && d == what+"/"+diag {
-				r.Add("L_failures_explained_by_the_stable_pointer_alone(reported there)", 1)
-				say("   (the same failure occurs on a node that differs in the stable pointer only)")
-				return
+			// is the extra variable needed? The same node life without restarts, siblings and twins differs from the
+			// reference node in the position of the stable pointer only: if it fails in the same way at the same
+			// block, the failure is reported there (under its own fingerprint), not here.
+			r2 := core.NewResult(prop, "exploration")
+			lRunPath(c, lpath{Kind: "stable-pointer", Script: stripScript(p.Script), Miner: p.Miner}, r2, false)
+			for _, v := range r2.Violations {
+				if strings.Contains(v.Fingerprint, "/"+what+"/"+diag+"/height="+lHeightKind(uint32(h))+"/") {
+					r.Add("L_failures_explained_by_the_stable_pointer_alone(reported there)", 1)
+					r.Violate(v.Fingerprint, v.What, v.Replay)
+					say("   (the same failure occurs on a node that differs in the stable pointer only: reported as %s)", v.Fingerprint)
+					return
+				}
 			}
-		} else {
-			c.fails[key] = what + "/" + diag
 		}
 		rel := "stable=parent"
 		if int(s) < h-1 {
@@ -488,7 +559,7 @@ func lRunPath(c *lchain, p lpath, r *core.Result, verbose bool) (trace []string)
 			v = "stable-pointer(" + rel + ")"
 		}
 		fp := fmt.Sprintf("%s/local/%s/%s/height=%s/%s-node/var=%s", prop, what, diag, lHeightKind(uint32(h)), mode, v)
-		r.Violate(fp, fmt.Sprintf("%s (block %d = %s block, this node's stable block %d, restarted=%v); %s\n%s", text, h, lHeightKind(uint32(h)), s, restarted, cs.String(), ""), cs)
+		r.Violate(fp, fmt.Sprintf("%s (block %d = %s block, this node's stable block %d, restarted=%v); %s", text, h, lHeightKind(uint32(h)), s, restarted, cs.String()), cs)
 	}
 	for i, e := range p.Script {
 		if core.OutOfTime() {
